@@ -53,7 +53,10 @@ func init() {
 	sh("C06", 90, 1200, runner.Part{Scenario: "simhost", Params: p("readmix", "70", "ppartition", "10", "pdup", "30", "preorder", "40", "ptransfer", "8"), Share: 2},
 		runner.Part{Scenario: "simhost", Params: p("readmix", "60", "pmember", "10", "pcrash", "5"), Share: 1},
 		// reads on a deposed leader that still hears from non-voting members
-		runner.Part{Scenario: "simhost", Params: p("hosts", "4", "voters", "3", "pmember", "15", "memberbias", "1", "checkquorum", "0", "ppartition", "12", "groupsplit", "60", "pheal", "5", "readmix", "60", "pcrash", "0", "pdrop", "0", "quiesce", "0"), Share: 2})
+		runner.Part{Scenario: "simhost", Params: p("hosts", "4", "voters", "3", "pmember", "15", "memberbias", "1", "checkquorum", "0", "ppartition", "12", "groupsplit", "60", "pheal", "5", "readmix", "60", "pcrash", "0", "pdrop", "0", "quiesce", "0"), Share: 2},
+		// deposed leaders that still receive (delayed) confirmations of older rounds
+		runner.Part{Scenario: "simhost", Params: p("hosts", "3", "checkquorum", "0", "holdcut", "1", "ppartition", "15", "groupsplit", "30", "pheal", "8", "readmix", "75", "pcrash", "0", "pdrop", "0", "pdup", "0", "preorder", "40", "pmember", "0", "quiesce", "0", "clients", "4", "keys", "1"), Share: 2})
+	// (the C06 parts above; one more: deposed leaders that still receive delayed confirmations)
 	sh("C07", 90, 1200, runner.Part{Scenario: "simhost", Params: p("pmember", "20", "hosts", "4"), Share: 2},
 		runner.Part{Scenario: "simhost", Params: p("pmember", "12", "hosts", "5", "pcrash", "6"), Share: 1},
 		runner.Part{Scenario: "simhost", Params: p("pmember", "25", "ptransfer", "30", "hosts", "4", "smyield", "300"), Share: 2},
@@ -77,5 +80,8 @@ func init() {
 	sh("C17", 90, 1200, runner.Part{Scenario: "simhost", Share: 2},
 		runner.Part{Scenario: "simhost", Params: p("pmember", "10", "ptransfer", "8", "ppartition", "8"), Share: 1})
 	sh("C18", 90, 1200, runner.Part{Scenario: "simhost", Params: p("pmember", "20", "hosts", "5"), Share: 1},
-		runner.Part{Scenario: "simhost", Params: p("pmember", "20", "hosts", "4", "pcrash", "5"), Share: 1})
+		runner.Part{Scenario: "simhost", Params: p("pmember", "20", "hosts", "4", "pcrash", "5"), Share: 1},
+		// quorum sets: reads and elections while non-voting members / witnesses answer and voters are cut off
+		runner.Part{Scenario: "simhost", Params: p("hosts", "4", "voters", "3", "pmember", "15", "memberbias", "1", "ppartition", "12", "groupsplit", "60", "pheal", "5", "readmix", "60", "pcrash", "0", "pdrop", "10", "quiesce", "0"), Share: 1},
+		runner.Part{Scenario: "simhost", Params: p("hosts", "5", "voters", "3", "pmember", "15", "memberbias", "2", "ppartition", "10", "groupsplit", "50", "readmix", "50", "pcrash", "3"), Share: 1})
 }
